@@ -1,2 +1,3 @@
 pub mod expr;
+pub mod sys;
 pub mod sysenum;
